@@ -59,6 +59,20 @@ def gen_cases(tier, rng, n_random):
         rest = [v for v in vs if v not in xs]
         ys = rng.sample(rest, rng.randint(1, min(2, len(rest))))
         yield {"nodes": vs, "directed": d, "undirected": u, "X": xs, "Y": ys, "seed": rng.randrange(1 << 30)}
+    # large districts whose other members are all treated: the recursion passes through line 7 more than once only when the outcome's
+    # district (four or more nodes) is cut down step by step -- uniform sampling never reaches this (0 of 4,000 in a trial; this
+    # family: about 1 in 800 exposes a defect that needs two nested line-7 steps)
+    for _ in range(6 * n_random):
+        n = rng.choice([5, 5, 6])
+        vs = oracles.names(n)
+        order = rng.sample(vs, n)
+        pos = {v: i for i, v in enumerate(order)}
+        d = [(a, b) for a in vs for b in vs if pos[a] < pos[b] and rng.random() < 0.4]
+        chain = rng.sample(vs, 4)
+        u = [tuple(sorted(e)) for e in zip(chain, chain[1:])]
+        y = chain[0]
+        xs = [v for v in vs if v != y and (v in chain or rng.random() < 0.7)]
+        yield {"nodes": vs, "directed": d, "undirected": u, "X": xs, "Y": [y], "seed": rng.randrange(1 << 30)}
 
 
 def vocab_obs(e, names):
